@@ -79,3 +79,18 @@ Theorem C04_preprocess_blank_output_is_absent : forall pf p v v' d e0 rt, pre_pa
   = ((rcall (pre_id pf) CbPre None ++ [RI [] (fun q => mk_test_issue q (dtype_of (p_kind p)) rt)])%list, d).
 Proof. exact preprocess_blank_output_is_absent. Qed.
 Print Assumptions C04_preprocess_blank_output_is_absent.
+(* a pointer whose input is there hands it on as it is; a Preprocess behind it decides absence again, on its own
+   output, by the wrapped schema's modifiers *)
+Theorem C04_ptr_present_hands_input_on : forall e nn pz v d e0, parse_zero v = false ->
+  sem Parse (SPtr e nn pz) (DVal v) d e0 =
+  (fst (sem Parse e (DVal v) (match d with DPtr (Some y) => y | _ => pz end) e0),
+   DPtr (Some (snd (sem Parse e (DVal v) (match d with DPtr (Some y) => y | _ => pz end) e0)))).
+Proof. exact ptr_present_hands_input_on. Qed.
+Print Assumptions C04_ptr_present_hands_input_on.
+Theorem C04_preprocess_blank_output_behind_pointer : forall pf p nn pz v v' d e0 rt,
+  parse_zero v = false -> pre_parse pf v = Some (inl v') -> parse_zero v' = true ->
+  p_def p = None -> p_req p = Some rt -> p_catch p = None -> p_pts p = [] ->
+  fst (sem Parse (SPtr (SPre pf (SPrim p)) nn pz) (DVal v) d e0)
+  = (rcall (pre_id pf) CbPre None ++ [RI [] (fun q => mk_test_issue q (dtype_of (p_kind p)) rt)])%list.
+Proof. exact preprocess_blank_output_behind_pointer. Qed.
+Print Assumptions C04_preprocess_blank_output_behind_pointer.
